@@ -40,6 +40,10 @@ type Limiter struct {
 	// ShortReturns: returns taken after the length prefix was read and before
 	// the body it announces was consumed (other than for a prefix of zero)
 	ShortReturns []token.Pos
+	// a `defer func() { r.Drain(); r.Reader = base }()` after the limiter was
+	// installed: the restore (and the drain) run at every exit
+	DeferredRestore bool
+	DeferredDrain   bool
 }
 
 type Lifter struct {
